@@ -47,6 +47,11 @@ class _NoTls(Exception):
     pass
 
 
+class _RowAbsent(Exception):
+    """The construction path of this row (a private helper of server.py) does not exist in the tree under test; the
+    same configuration is reached through the start-* rows."""
+
+
 def _spy_factory(counter):
     from nauyaca.protocol.response import GeminiResponse
     from nauyaca.server.protocol import GeminiServerProtocol
@@ -96,6 +101,9 @@ async def _build_row(loop, row, counter):
         tempfile.tempdir = scratch.subdir("c20-tmp")
         try:
             with contextlib.redirect_stdout(io.StringIO()):
+                name = "_create_self_signed_pyopenssl_context" if row == "selfsigned-pyo" else "_create_self_signed_context"
+                if not callable(getattr(srv, name, None)):
+                    raise _RowAbsent(name)
                 if row == "selfsigned-pyo":
                     pyctx = srv._create_self_signed_pyopenssl_context()
                     return (lambda: TLSServerProtocol(app, pyctx)), None, None
@@ -260,6 +268,8 @@ def run_server(case: dict):
         conn, hs, raw = vloop.run(scenario)
     except _NoTls as e:
         return viol("listener-without-tls", f"{case['row']}: {e}")
+    except _RowAbsent as e:
+        return ok(row_absent=str(e))
     except Exception as e:
         if any(w in case["row"] for w in UNUSABLE):
             return ok(refused_to_start=type(e).__name__)  # an unusable key pair must prevent start-up
